@@ -56,7 +56,10 @@ def _impl(tier, seed, search):
         out += [('append', 'append', None), ('extend2', 'extend', 2), ('extend1', 'extend', 1), ('extend0', 'extend', 0), ('reverse', 'reverse', None), ('clear', 'clear', None), ('pop()', 'pop', None),
                 ('iter', 'iter', None), ('append-foreign', 'append-foreign', None), ('append-multi', 'append-multi', None), ('set-foreign', 'set-foreign', 0), ('insert-multi', 'insert-multi', 0),
                 ('extend-foreign', 'extend-foreign', None), ('insert-foreign', 'insert-foreign', 0), ('append-subclass', 'append-subclass', None),
-                ('set-subclass', 'set-subclass', 0), ('extend-subclass', 'extend-subclass', None), ('insert-subclass', 'insert-subclass', 0)]
+                ('set-subclass', 'set-subclass', 0), ('extend-subclass', 'extend-subclass', None), ('insert-subclass', 'insert-subclass', 0),
+                # things that are not objects of the class at all: a bare array (valid value or not), a Python list of objects
+                ('append-array', 'append-array', None), ('append-junk-array', 'append-junk-array', None), ('insert-array', 'insert-array', 0), ('set-array', 'set-array', 0), ('extend-array', 'extend-array', None),
+                ('extend-list[ok,foreign]', 'extend-list-bad', 1), ('extend-list[ok,ok,multi]', 'extend-list-bad', 2), ('extend-list[ok,ok]', 'extend-list-ok', None)]
         return out
     def apply(c, X, ref, kind, arg):
         """performs the operation on both; returns None if they agree, else a description"""
@@ -127,6 +130,32 @@ def _impl(tier, seed, search):
             if a[0] == 'ok': return f'{kind}: an object of class {type(F).__name__} was accepted by {c}'
             if not same(X, before): return f'{kind}: the object changed although the operation was rejected'
             return None
+        elif kind in ('append-array', 'append-junk-array', 'insert-array', 'set-array', 'extend-array'):
+            A_ = np.array(one(), float) if kind != 'append-junk-array' else np.array([1.0, 2.0, 3.0])
+            if kind in ('append-array', 'append-junk-array'): a = outcome(lambda: X.append(A_))
+            elif kind == 'insert-array': a = outcome(lambda: X.insert(arg, A_))
+            elif kind == 'extend-array': a = outcome(lambda: X.extend(A_))
+            else:
+                if len(ref) == 0: return None
+                def sx(): X[arg] = A_
+                a = outcome(sx)
+            if a[0] == 'ok': return f'{kind}: a bare ndarray of shape {A_.shape} was accepted by {c} where an object of the class is required'
+            if not same(X, before): return f'{kind}: the object changed although the operation was rejected'
+            return None
+        elif kind in ('extend-list-bad', 'extend-list-ok'):
+            e1, v1 = elem(); e2, v2 = elem()
+            if kind == 'extend-list-ok':
+                a = outcome(lambda: X.extend([e1, e2]))
+                if a[0] == 'ok':
+                    ref.extend([v1, v2])
+                    if not same(X, ref): return 'extend([a, b]) was accepted but the object is not the list extended by a, b'
+                elif not same(X, before): return 'extend([a, b]): the object changed although the operation was rejected'
+                return None
+            bad = CL[other(c)][0](CL[other(c)][1]()) if arg == 1 else build(c, 2)[0]
+            a = outcome(lambda: X.extend([e1, bad] if arg == 1 else [e1, e2, bad]))
+            if a[0] == 'ok': return f'extend(list ending in {"an object of another class" if arg == 1 else "a multi-valued object"}) was accepted by {c}'
+            if not same(X, before): return f'extend(list with an inadmissible item): the object changed although the operation was rejected (length {len(before)} -> {len(X)})'
+            return None
         elif kind in ('append-multi', 'insert-multi'):
             Y, _ = build(c, 2)
             a = outcome(lambda: X.append(Y)) if kind == 'append-multi' else outcome(lambda: X.insert(arg, Y))
@@ -146,7 +175,7 @@ def _impl(tier, seed, search):
         for start in range(0, maxstart + 1):
             for d in range(1, depth + 1):
                 for seq in itertools.product(range(len(alphabet)), repeat=d):
-                    if d >= 3 and any(alphabet[i][1] in ('iter', 'append-multi', 'insert-multi') or alphabet[i][1].endswith(('foreign', 'subclass')) for i in seq[:-1]): continue
+                    if d >= 3 and any(alphabet[i][1] in ('iter', 'append-multi', 'insert-multi') or alphabet[i][1].endswith(('foreign', 'subclass', 'array', 'list-bad', 'list-ok')) for i in seq[:-1]): continue
                     X, ref = build(c, start)
                     for si, oi in enumerate(seq):
                         label, kind, arg = alphabet[oi]
